@@ -23,7 +23,9 @@ CHECKS = {
         "of keys down defined from the history alone (C14_never_before); on such a press the output is exactly one signal, no MIDI, and only "
         "the key tracker changes (C14_fires_and_swallows); an empty sequence never signals (C14_empty). Tie to /repo: the real Device is "
         "stepped through generated histories (all press orders of sequences of length 0-3, release/re-press, other keys interleaved, random) "
-        "and the decidable monitor the theorems are about is evaluated in coqc on the implementation's per-event signal counts, MIDI and State().",
+        "plus disturbances with the sequence partly held - every action key, aliasing key codes, autorepeat, chords, stray releases - and what follows a swallowed press) "
+        "and the decidable monitor the theorems are about is evaluated in coqc on the implementation's per-event signal counts, MIDI and State() (a swallowed press "
+        "must leave no trace in State() later).",
    note="Trusted: Coq kernel + VM; hand-written device model (Model/Device.v) compared per event with the implementation; Go channel semantics of the buffered signal channel. No axioms.",
    technique="Coq proof by case analysis of the step function lifted to histories + per-event differential correspondence",
    design="§5 C14"),
@@ -48,7 +50,8 @@ CHECKS = {
         "(C12_contents, C12_later_wins, C12_walk_order); loading never crashes, a missing/unreadable directory gives an error (C12_no_crash), "
         "with the original callback refuted (C12_missing_dir_crash_refuted). Tie to /repo: real LoadDeviceConfigs + FindConfig on real trees: "
         "all 16x16 presence combinations x identifiers x 4 device types (exhaustive), broken / non-TOML / upper-case / nested / duplicate files, "
-        "missing and unreadable directories; the per-file parse verdict fed to the model is the real ParseData's; monitors and views evaluated in coqc.",
+        "missing and unreadable directories, files on which the decoder panics, the same directory loaded a second time after its files were replaced by older "
+        "versions; the per-file parse verdict fed to the model is the real ParseData's; monitors and views evaluated in coqc.",
    note="Trusted: Coq kernel + VM; hand-written model of loader.go; filepath.Walk order (lexical) and os semantics as exercised; the parser is an oracle here (C09/C10). No axioms.",
    technique="Coq proof (case analysis + induction over walk listings) + exhaustive-grid differential correspondence on real directory trees",
    design="§5 C12"),
@@ -62,7 +65,9 @@ CHECKS = {
         "(C18_type_conflict_safe). Tie to /repo: the real updateHIDIConfiguration (package main, ALSA stub overlay) runs on generated trees "
         "(each factory file absent/truncated/modified/longer/intact, directories absent, user and extra files, blacklist present/absent, dir absent), "
         "before/after trees and the second run compared with the model in coqc, the model's crash states materialised as real trees and re-run, "
-        "and the ORDER of successful mutating syscalls under strace compared with the model's op list.",
+        "the REAL code killed at every mutating system call (strace fault injection) and then run twice to completion, start trees with stale siblings (F.tmp, F~, .F.swp) "
+        "and files differing in line termination only, and the ORDER of successful mutating syscalls under strace compared with the model's op list (a difference "
+        "alone is a broken correspondence, no failing input).",
    note="Trusted: Coq kernel + VM; hand-written model of updateHIDIConfiguration and of the os calls it uses (open/create/truncate/write/mkdir semantics as exercised); file contents abstracted to chunk-id lists cut at every length the run needs (exact for the model's operations); a crash is modelled as a prefix of the mutation list plus a partial last write. No axioms.",
    technique="Coq proof over a file-system model with explicit mutation lists (prefix = crash point) + differential correspondence on real trees incl. strace syscall order",
    design="§5 C18", engine="coq-model+go-overlay-harness+strace-order"),
@@ -210,7 +215,8 @@ CHECKS = {
         "(C15_*_monitor_sound). Partial by nature: Go's scheduler, channels and mutex are modelled; schedules the stress run does not produce are "
         "covered only by the theorem about the model. Tie to /repo: stress runs of the real DynamicFanOut and ProcessMidiEvents (tagged payloads, "
         "fast/slow/stopped consumers, spawn/despawn at random moments, GOMAXPROCS 1-16, -race in the thorough tier); recorded histories checked by "
-        "accepts_history in coqc; the despawn-deadlock scenario always runs first.",
+        "accepts_history in coqc; the despawn-deadlock scenario always runs first; long sessions (72000 counter-tagged messages per direction, every buffer driven full "
+        "around each multiple of 256 and around 65536, hundreds to 70000 attach/detach cycles) and time-aged sessions (11.5 s; thorough up to 125 s of uptime).",
    note="Trusted: Coq kernel + VM; Go channel / sync.Mutex / scheduler semantics as modelled (mutex fairness needed for completion under an endless input stream); hand-written LTS. No axioms.",
    technique="Coq proof of LTS invariants and a ranking-function liveness argument + history-checking correspondence on stress runs",
    design="§5 C15", engine="coq-model+go-overlay-harness (stress, -race)"),
@@ -225,7 +231,7 @@ CHECKS = {
         "(C16_no_crosstalk*). The goroutine structure and access table are hand-transcribed; real races and schedules are EXPLORED, not proved: "
         "1-8 real devices under go test -race with the real LED loop against a fake OpenRGB server (mount namespace for /sys/class/hidraw), MIDI input "
         "streaming, notes held, streams closed at random offsets in the LED cycle; race reports, return time, leftover goroutines and per-device output "
-        "(compared in coqc with the device model) are checked.",
+        "(compared in coqc with the device model) are checked; also the OpenRGB server dying mid-session and paced streams (a quiet period before an event).",
    note="Trusted: Coq kernel + VM; Go scheduler / mutex / select / WaitGroup semantics as modelled; the race detector as the oracle for real memory races; output channel drained and OpenRGB peer responsive (model assumptions). No axioms.",
    technique="Coq proof over an LTS (ranking function, lock-set discipline) + race-detector exploration with differential output comparison",
    design="§5 C16", engine="coq-model+go-overlay-harness (-race, OpenRGB rig)"),
